@@ -75,6 +75,27 @@ impl Mkt {
             let st: fil_actor_account::State = v.state(&names[n]).unwrap();
             pks.insert(n.to_string(), st.address);
         }
+        // "k": a contract client.  Its AuthenticateMessage (FRC-0044, reached through
+        // handle_filecoin_method) answers a well-formed CBOR bool taken from storage slot 0 -- `false`
+        // is a refusal that does NOT abort, unlike the account actor's; any other call stores its
+        // first calldata word in slot 0.
+        let k_code: Vec<u8> = vec![
+            0x5f, 0x35, 0x60, 0xe0, 0x1c, 0x63, 0x86, 0x8e, 0x10, 0xc4, 0x14, 0x60, 0x13, 0x57, // selector == native?
+            0x5f, 0x35, 0x5f, 0x55, 0x00, // no: slot0 := calldata[0..32]; STOP
+            0x5b, // yes: return (exit 0, codec 0x51, bytes [0xf4 + slot0])
+            0x60, 0x51, 0x60, 0x20, 0x52, 0x60, 0x60, 0x60, 0x40, 0x52, 0x60, 0x01, 0x60, 0x60, 0x52,
+            0x5f, 0x54, 0x60, 0xf4, 0x01, 0x60, 0xf8, 0x1b, 0x60, 0x80, 0x52, 0x60, 0xa0, 0x5f, 0xf3,
+        ];
+        let o = v.run_p(
+            &names["x"],
+            &fil_actors_runtime::EAM_ACTOR_ADDR,
+            &TokenAmount::from_atto(0),
+            fil_actor_eam::Method::CreateExternal as u64,
+            &fil_actor_eam::CreateExternalParams(crate::evm::loader(&k_code)),
+        );
+        assert!(o.ok(), "deploy contract client: {}", o.message);
+        let r: fil_actor_eam::CreateExternalReturn = o.de();
+        names.insert("k".into(), Address::new_id(r.actor_id));
         let burnt0 = v.balance(&BURNT_FUNDS_ACTOR_ADDR);
         Mkt { v, names, pks, reg: RefCell::new(BTreeMap::new()), burnt0 }
     }
@@ -123,7 +144,7 @@ impl Mkt {
         let locked = BalanceTable::from_root(store, &st.locked_table, "locked").unwrap();
         let mut esc = serde_json::Map::new();
         let mut lck = serde_json::Map::new();
-        for n in ["c1", "c2", "m1", "m2", "x"] {
+        for n in ["c1", "c2", "m1", "m2", "x", "k"] {
             esc.insert(n.into(), small(&escrow.get(&self.names[n]).unwrap()));
             lck.insert(n.into(), small(&locked.get(&self.names[n]).unwrap()));
         }
@@ -314,6 +335,15 @@ impl Mkt {
                 },
             ),
             "Publish" => {
+                // the contract client answers what the first of its entries says
+                if let Some(b) = call["batch"].as_array().unwrap().iter().find(|b| b["d"]["c"] == json!("k")) {
+                    let mut word = vec![0u8; 32];
+                    word[31] = b["sigOK"].as_bool().unwrap() as u8;
+                    let o = self.v.run_p(&self.names["x"], &self.names["k"], &zero,
+                        fil_actor_evm::Method::InvokeContract as u64,
+                        &fil_actor_evm::InvokeContractParams { input_data: word });
+                    assert!(o.ok(), "set contract client's answer: {}", o.message);
+                }
                 let deals: Vec<ClientDealProposal> = call["batch"]
                     .as_array()
                     .unwrap()
@@ -579,7 +609,7 @@ fn random_call(rng: &mut Rng, m: &Mkt) -> Value {
         return json!({"a": "Settle", "c": *rng.pick(&["x", "c1", "o1"]), "ids": sids});
     }
     match rng.below(100) {
-        0..=9 => json!({"a": "AddBalance", "c": "x", "party": *rng.pick(&["c1", "c2", "m1", "m2", "x"]),
+        0..=9 => json!({"a": "AddBalance", "c": "x", "party": *rng.pick(&["c1", "c2", "m1", "m2", "x", "k"]),
                         "amt": *rng.pick(&[0, 1, 7, MIN_DUR, 2 * MIN_DUR + 50, 4 * MIN_DUR])}),
         10..=17 => json!({"a": "Withdraw", "c": *rng.pick(&["c1", "c2", "o1", "w1", "o2", "x"]),
                           "party": *rng.pick(&["c1", "c2", "m1", "m2"]),
@@ -591,7 +621,7 @@ fn random_call(rng: &mut Rng, m: &Mkt) -> Value {
             for _ in 0..n {
                 let start = epoch + *rng.pick(&[0, 0, 1, 5, 100, INTERVAL, -1]);
                 let dur = MIN_DUR + *rng.pick(&[0, 0, 0, 1, 77, INTERVAL, -1]);
-                let mut d = json!({"c": *rng.pick(&["c1", "c1", "c2"]), "p": prov, "start": start.max(0),
+                let mut d = json!({"c": *rng.pick(&["c1", "c1", "c2", "c1", "c1", "c2", "k"]), "p": prov, "start": start.max(0),
                     "end": start.max(0) + dur, "price": *rng.pick(&[0, 1, 1, 2, 3]),
                     "pcol": *rng.pick(&[0, 3, 9, -1]), "ccol": *rng.pick(&[0, 5, 11]),
                     "uid": rng.range(1, 3)});
@@ -602,7 +632,16 @@ fn random_call(rng: &mut Rng, m: &Mkt) -> Value {
                 if rng.chance(20) && !st["prop"].as_array().unwrap().is_empty() {
                     d = rng.pick(st["prop"].as_array().unwrap())["d"].clone();
                 }
-                batch.push(json!({"d": d, "sigOK": rng.chance(92)}));
+                let ok = if d["c"] == json!("k") { rng.chance(55) } else { rng.chance(92) };
+                batch.push(json!({"d": d, "sigOK": ok}));
+            }
+            // the contract client gives one answer per message
+            if let Some(a) = batch.iter().find(|b| b["d"]["c"] == json!("k")).map(|b| b["sigOK"].clone()) {
+                for b in batch.iter_mut() {
+                    if b["d"]["c"] == json!("k") {
+                        b["sigOK"] = a.clone();
+                    }
+                }
             }
             if rng.chance(15) && batch.len() > 1 {
                 let b0 = batch[0].clone();
@@ -707,7 +746,7 @@ pub fn main(args: &[String]) {
         begin(&mut t, &m);
         let mut calls = vec![];
         // start funded, so that publications have a chance
-        for (party, amt) in [("c1", 3 * MIN_DUR + 40), ("m1", 50), ("m2", 20)] {
+        for (party, amt) in [("c1", 3 * MIN_DUR + 40), ("m1", 50), ("m2", 20), ("k", 2 * MIN_DUR + 11)] {
             let call = json!({"a": "AddBalance", "c": "x", "party": party, "amt": amt});
             t.line(&m.step(&call));
             calls.push(call);
